@@ -437,6 +437,15 @@ def scen_c12(wd, rnd, quick):
                       mut={"path": {"seed": 77 + j, "bits": rnd.choice(["rnd", "zero", "one", "alt"])}})
         sc.append(op)
         sc.append({"c": "verify", "kind": "raw", "msg": op["name"], "tag": "non-member"})
+    # another instance of the process, configured with other circuit resources of the same size, proves in between:
+    # the requests of a registered member on THIS instance must still end in messages that verify
+    m2 = {"k": "rnd", "s": 6300}
+    sc.append({"c": "reg", "i": 50, "s": m2, "lim": I(10)})
+    for j, entry in enumerate(["tree", "witness", "tree"] if quick else ["tree", "witness", "raw", "vector", "tree"]):
+        sc.append({"c": "foreign"})
+        op = prove_op(f"f{j}", entry, m2, 50, I(10), I(j), I(3), {"len": 5, "seed": j}, cls="after-foreign")
+        sc += [op, {"c": "verify", "kind": "raw", "msg": op["name"], "tag": "after-prove"},
+               {"c": "verify", "kind": "stateful", "msg": op["name"], "tag": "after-prove"}]
     return sc, k
 
 
